@@ -84,7 +84,7 @@ class Gfx(util.BaseSection):
         """
         datastrs = []
         for line in lines:
-            if len(line) != 129:
+            if len(line.rstrip()) != 128:
                 continue
 
             larray = list(line.rstrip())
